@@ -13,6 +13,17 @@ import clusfam
 import vlib
 
 
+def replay_readd():
+    """A fast replay: the allocator loop gets to a new partition (watch) only after a later catalogue entry has added this
+    node to its replica set and loaded the group (the loop is held between receiving the update and reading the
+    replica set).  Afterwards the dataset is deleted: no raft group of it keeps running (C14), nothing stalls (C18)."""
+    return [{"name": "replay-readd", "steps": s} for s in (
+        ["hold-watch", "rcreate:2:2", "pnode+1", "settle", "release-watch", "settle"],
+        ["hold-watch", "rcreate:2:2", "pnode+1", "settle", "release-watch", "settle", "rdelete", "create:1"],
+        ["conf+2", "hold-watch", "rcreate:3:2", "pnode+1", "settle", "release-watch", "settle", "conf-2", "rdelete"],
+        ["rcreate:2:2", "settle", "pnode+1", "settle", "rdelete"])]
+
+
 def scenarios(quick):
     out = []
     alpha = ["conf+2", "create:1", "create:2", "delete", "conf-2", "conf+3"]
@@ -51,6 +62,7 @@ def scenarios(quick):
                   ["burst", "rcreate!:2:1,2", "conf+2", "rdelete", "create:2", "conf-2", "create:1"],
                   ["create:1", "rcreate!:1:1", "rcreate:1:1", "settle", "rdelete", "delete", "create:1"]):
         out.append({"name": "unloadable-replica", "steps": steps})
+    out += replay_readd()
     # membership changes while other goroutines of the node dial peers (two locks in cluster.Conn: address book, connections)
     dchurn = []
     for i in range(40 if quick else 150):
@@ -155,6 +167,9 @@ def run(ctx):
     by = {}
     for v in viols:
         e = evs[v[0]]
+        if v[1] == "GroupOutlivesPartition":     # C14's business (a deleted dataset's partitions stop): reported by its check
+            ctx.notes.append("GroupOutlivesPartition@%s belongs to C14" % e["name"])
+            continue
         sig = "%s@%s" % (v[1], e["signature"] or "-")
         by.setdefault(sig, []).append(e)
     for sig in sorted(by):
